@@ -496,6 +496,30 @@ def _run_alphas(case, ctx):
             _cmp(ctx, key, "adsorbed_volume", res0["adsorbed_volume"], offset * M / rho / 1000, 1e-6)
 
 
+    # raw arrays are the caller's: the same float array as sample and reference ("against itself"), and one reference array
+    # used for two calls
+    both = numpy.array(ref_n, dtype=float)
+    keep = both.copy()
+    ra = _call(lambda: alpha_s_raw(both, both, a_point, ref_area, rho, M, t_limits=(lo, hi)))
+    ctx.case(["alphas", "raw/same-array-as-sample-and-reference", dg])
+    ctx.count("alphas", "raw/same-array-as-sample-and-reference")
+    if not numpy.array_equal(both, keep):
+        ctx.violation("alpha_s_raw/writes-into-argument", "the analysis modified an array passed to it", before=keep[:4], after=both[:4])
+    elif ra[0] == "ok" and ra[1][0]:
+        _cmp(ctx, "alpha_s/raw/against-itself", "slope", ra[1][0][0]["slope"], a_point)
+        _cmp(ctx, "alpha_s/raw/against-itself", "area", ra[1][0][0]["area"], ref_area)
+    elif ra[0] != "ok":
+        ctx.violation("alpha_s/raw/against-itself/raises/%s" % type(ra[1]).__name__, "alpha-s of an array against itself raised", exc=ra[1])
+    shared = numpy.array(ref_n, dtype=float)
+    for which_call in ("first", "second"):
+        rb = _call(lambda: alpha_s_raw(numpy.array(n, dtype=float), shared, a_point, ref_area, rho, M, t_limits=(lo, hi)))
+        ctx.case(["alphas", "raw/reference-array-reused", which_call, dg])
+        if rb[0] == "ok" and rb[1][0]:
+            _cmp(ctx, "alpha_s/raw/reference-array-reused/%s-call" % which_call, "area", rb[1][0][0]["area"], ref_area * scale)
+        elif rb[0] != "ok":
+            ctx.violation("alpha_s/raw/reference-array-reused/raises/%s" % type(rb[1]).__name__, "alpha-s with a reference array used before raised", exc=rb[1], call=which_call)
+
+
 # ------------------------------------------------------------------ Dubinin
 
 
